@@ -22,7 +22,7 @@ CHECKS.update({
  "C04": dict(engine="E1 seq", cat="model_checking", ref="6 C04",
    technique="exhaustive mixed exception/result outcome sequences x deviation-bounded stop reasons on 8 call-style entry points; object-identity oracle",
    text="call() through Retry, Policy, RetryPolicy, context managers and async twins for every outcome sequence mixing exception and result failures and every stop reason; the returned object must be the successful attempt's own object, the raised exception the last attempt's own object with a traceback ending at its raise site, and RetryExhaustedError fields must describe the final attempt.",
-   note="aborted and cancellation-type endings judged by C13; result classifier also in one-shot mode; same exception object re-raised; None results; awaitable objects as successful values; attribute-configured wrappers; attempt_timeout_s modelled"),
+   note="aborted and cancellation-type endings judged by C13; result classifier also in one-shot mode; same exception object re-raised; None results; awaitable objects as successful values; falsy exception objects; unobserved runs (no hooks at all); attribute-configured wrappers; attempt_timeout_s modelled"),
  "C05": dict(engine="E1 seq", cat="model_checking", ref="6 C05",
    technique="exhaustive enumeration of strategy tables, class sequences and strategy answers (NaN, inf, negative, beyond remaining) on the real loop; exact expected delay on a dyadic time lattice",
    text="For each strategy table (default / per-class / both, context or legacy signature) and every class sequence and strategy answer, the monitor checks that exactly the designated strategy is called once per granted retry with the true attempt number, the classifier's own Classification object, the previously applied delay, the remaining time and the cause, and that the sanitised, capped delay is what events, handler, before_sleep, sleeper and next_sleep_s carry.",
@@ -74,7 +74,7 @@ CHECKS.update({
  "C07": dict(engine="E2 state + E3 coro + E1 seq", cat="model_checking", ref="6 C07",
    technique="explicit-state BFS over identity-aware call histories on the real CircuitBreaker and over interleavings of hand-driven AsyncPolicy coroutines sharing one breaker; identity-aware reference automaton with look-ahead comparison; first-divergence pruning",
    text="(a) histories start/settle(i, success|failure|cancel)/tick with 2-3 outstanding calls on the real breaker, (b) all interleavings to depth 7 (9) of 2-3 concurrent AsyncPolicy.call/execute coroutines (with/without retry, pre-flight abort) with resume-ok, resume-failure, cancel and tick events, (c) sequential Policy/AsyncPolicy histories: from opening until the timeout every start is rejected without invoking the operation and without being counted, afterwards exactly one probe is admitted until it settles, success closes with empty history, failure re-opens with a fresh timeout, cancel frees the slot.",
-   note="two known findings (c07.stale-settle, c07.unadmitted-cancel) are listed in known_findings.json and pruned at their first divergent step; every other divergence is a violation"),
+   note="two known findings (c07.stale-settle, c07.unadmitted-cancel) are listed in known_findings.json and pruned at their first divergent step; every other divergence is a violation; E3 states are merged only when breaker state, reference state and a fingerprint of every suspended call (coroutine-frame locals, context-object fields) agree"),
 
  "C17": dict(engine="E4 thread", cat="model_checking", ref="6 C17",
    technique="stateless exploration of real thread interleavings under a controlled scheduler (sys.monitoring line/bytecode scheduling points, baton hand-off, cooperative model lock), iterative pre-emption bounding; brute-force linearizability against sequential runs of the real component",
